@@ -1,6 +1,88 @@
-/- C05 — model not written yet (stub so that the driver target exists). -/
-namespace Nitime.C05
+/-
+C05 — frequency axes: executable model and line protocol (core Lean only).
 
-def handle (_args : List String) : String := "bad-op"
+The grid terms come from `Nitime.Generated.Grids` (re-extracted from the source on every run);
+the definitions they are evaluated with, the true grids and `getBounds` are in
+`Nitime.Model.C05Grid`.  Everything is exact `Rat` arithmetic; a binary64 sampling rate enters as
+the rational number it denotes (`F64.ofFloat`).
+
+Ops (after the property id):
+  grid <site> <Fs> <N>                 generated grid of the site, as exact rationals
+  band <site> <Fs> <N> <lb> <ub|none>  `freqs[lb_idx:ub_idx]` with `get_bounds(freqs, lb, ub)`
+  bounds <site> <Fs> <N> <lb> <ub|none>  `lb_idx ub_idx`
+  keep <site> <Fs> <N> <lb> <ub|none>  indices of the bins `filtered_fourier` keeps (DC excluded)
+  true1 / true2 / trueshift / truefreqz <Fs> <N>   the grids the property asks for
+  sites                                names of all generated sites
+`<Fs>`, `<lb>`, `<ub>`: `x<16 hex>` (a double, taken exactly) or `p/q`.
+-/
+import Nitime.Model.Proto
+import Nitime.Model.F64
+import Nitime.Model.C05Grid
+import Nitime.Generated.Grids
+
+namespace Nitime.C05
+open Nitime.Proto
+
+/-- the value used for `np.pi` in the exact runs: π to 40 digits (error < 1e-40, far below the
+4-ulp comparison); the theorems treat π as an arbitrary parameter -/
+def piApprox : Rat := (31415926535897932384626433832795028841971 : Int) / ((10 ^ 40 : Nat) : Rat)
+
+def parseQ? (s : String) : Option Rat :=
+  if s.startsWith "x" then (parseFloat? s).map F64.ofFloat else parseRat? s
+
+def showRatList (xs : List Rat) : String := joinList (xs.map showRat)
+
+def lookup (site : String) : Option GridExpr := (Nitime.Generated.Grids.sites.lookup site)
+
+def parseUb? (s : String) : Option (Option Rat) :=
+  if s = "none" then some none else (parseQ? s).map some
+
+def handle (args : List String) : String :=
+  match args with
+  | ["grid", site, fs, n] =>
+    match lookup site, parseQ? fs, n.toNat? with
+    | some g, some q, some k => showRatList (eval g piApprox q k)
+    | none, _, _ => "no-such-site"
+    | _, _, _ => "bad-args"
+  | ["band", site, fs, n, lb, ub] =>
+    match lookup site, parseQ? fs, n.toNat?, parseQ? lb, parseUb? ub with
+    | some g, some q, some k, some l, some u => showRatList (sliceBand (eval g piApprox q k) l u)
+    | none, _, _, _, _ => "no-such-site"
+    | _, _, _, _, _ => "bad-args"
+  | ["bounds", site, fs, n, lb, ub] =>
+    match lookup site, parseQ? fs, n.toNat?, parseQ? lb, parseUb? ub with
+    | some g, some q, some k, some l, some u =>
+      let b := getBounds (eval g piApprox q k) l u
+      toString b.1 ++ " " ++ toString b.2
+    | none, _, _, _, _ => "no-such-site"
+    | _, _, _, _, _ => "bad-args"
+  | ["keep", site, fs, n, lb, ub] =>
+    -- `filtered_fourier`: one-sided bins (DC excluded) that survive `freqs < lb` / `freqs > ub`
+    match lookup site, parseQ? fs, n.toNat?, parseQ? lb, parseUb? ub with
+    | some g, some q, some k, some l, some u =>
+      let f := eval g piApprox q k
+      let hi := match u with | some v => v | none => f.getLastD 0
+      showNatList (((List.range f.length).zip f).filterMap fun (i, x) =>
+        if i ≠ 0 ∧ ¬ (x < l) ∧ ¬ (x > hi) then some i else none)
+    | none, _, _, _, _ => "no-such-site"
+    | _, _, _, _, _ => "bad-args"
+  | ["true1", fs, n] =>
+    match parseQ? fs, n.toNat? with
+    | some q, some k => showRatList (trueOneSided q k)
+    | _, _ => "bad-args"
+  | ["true2", fs, n] =>
+    match parseQ? fs, n.toNat? with
+    | some q, some k => showRatList (trueTwoSided q k)
+    | _, _ => "bad-args"
+  | ["trueshift", fs, n] =>
+    match parseQ? fs, n.toNat? with
+    | some q, some k => showRatList (trueShifted q k)
+    | _, _ => "bad-args"
+  | ["truefreqz", fs, n] =>
+    match parseQ? fs, n.toNat? with
+    | some q, some k => showRatList (trueFreqz q k)
+    | _, _ => "bad-args"
+  | ["sites"] => joinList (Nitime.Generated.Grids.sites.map (·.1))
+  | _ => "bad-op"
 
 end Nitime.C05
